@@ -6,7 +6,8 @@ open AbtemVerif AbtemVerif.Proto AbtemVerif.ExitPlanes AbtemVerif.Multislice
    `validate none|int:<k>|tuple:<ints> <n>`            → `ok <ints>` | `err <kind>`
    `after <planes> <n>`                                 → `ok <T/F list>` | `err <kind>`
    `thick <planes> <rats>`                              → `ok <rats>` | `err <kind>`
-   `msd <ensAxis T/F> <planes> <num_slices> <configs: listlist of slice ids>`
+   `msd <ensAxis T/F> <planes> <num_slices> <configs: listlist of slice ids> [<incident waves in reciprocal space T/F>]`
+        (history marker `0` = the representation change `ensure_real_space`)
         → `final <shape> <hist>` | `table <shape> <entry>;<entry>…` (row-major over the shape; entry = slice-id
           history, `_` = empty history (incident wave), `z` = never written) | `err <kind>`
    anything else → `bad-op` -/
@@ -57,6 +58,14 @@ def handle : List String → String
       | .ok o => showOut o
       | .error e => s!"err {e}"
     | _, _, _, _ => "bad-op"
+  | ["msd", ens, planes, nslices, configs, recip] =>
+    -- the same from the entry of the function: incident waves handed over in reciprocal space (`T`) or real space (`F`)
+    match parseBool? ens, parseList? parseInt? planes, parseNat? nslices, parseListList? parseNat? configs, parseBool? recip with
+    | some ens, some pl, some ns, some cfgs, some rc =>
+      match multisliceAndDetectFrom hstep hdetect htoReal rc [] ⟨ens, pl, ns, cfgs⟩ with
+      | .ok o => showOut o
+      | .error e => s!"err {e}"
+    | _, _, _, _, _ => "bad-op"
   | _ => "bad-op"
 
 def main : IO Unit := serve handle
